@@ -162,6 +162,8 @@ class Norm:
                 if inner[0] == 'c' and isinstance(inner[1], int) and not isinstance(inner[1], bool): return ('c', wrap_int(inner[1], e[1]))
                 if inner[0] == 'f' and inner[1] == 'clamp' and len(inner) == 5 and all(x[0] == 'c' and isinstance(x[1], int) and wrap_int(x[1], e[1]) == x[1] for x in inner[3:5]):
                     return inner                            # clamp(x, lo, hi) with constant bounds inside the target type: the cast cannot change the value
+                if inner[0] == 'f' and inner[1] == 'Rem' and inner[3][0] == 'c' and isinstance(inner[3][1], int) and 0 < inner[3][1] <= 127 and e[4] in INT_TYPES and not INT_TYPES[e[4]][1]:
+                    return inner                            # x % c of an unsigned x lies in 0..c-1
                 return ('f', 'as_' + e[1], inner)          # narrowing / sign-changing cast: part of the value computed, kept
             return inner
         if k == 'param':
@@ -212,7 +214,15 @@ class Norm:
         return proj
 
     def op(self, name, a, b):
-        if name in ('Add', 'AddUnchecked', 'AddWithOverflow'): return mk_add([a, b])
+        if name in ('Add', 'AddUnchecked', 'AddWithOverflow'):
+            # x / c + (x % c != 0) as _   ==  div_ceil(x, c)
+            for p, q in ((a, b), (b, a)):
+                if p[0] == 'f' and p[1] == 'Div' and p[3][0] == 'c' and isinstance(p[3][1], int):
+                    x, c = p[2], p[3]
+                    ne = ('f', 'Ne', *sorted((('f', 'Rem', x, c), ('c', 0)), key=repr))
+                    if q == ne or q == ('f', 'from', ne) or q == ('f', 'as_usize', ne) or q == ('f', 'Gt', ('f', 'Rem', x, c), ('c', 0)):
+                        return ('f', 'divceil', x, c)
+            return mk_add([a, b])
         if name in ('Mul', 'MulUnchecked', 'MulWithOverflow'): return mk_mul([a, b])
         if name in ('Sub', 'SubUnchecked', 'SubWithOverflow'):
             return mk_add([a, mk_mul([('c', -1), b])])          # a - b as a sum (polynomial normal form; overflow is the panic inventory's business)
@@ -429,6 +439,11 @@ def ev(t, env):
         if n == 'Shr': return a[0] >> a[1]
         if n == 'BitAnd': return a[0] & a[1]
         if n == 'Sub': return a[0] - a[1]
+        if n == 'satsub': return max(0, a[0] - a[1])
+        if n in ('Gt', 'Ge', 'Lt', 'Le', 'Eq', 'Ne'):
+            return int({'Gt': a[0] > a[1], 'Ge': a[0] >= a[1], 'Lt': a[0] < a[1], 'Le': a[0] <= a[1], 'Eq': a[0] == a[1], 'Ne': a[0] != a[1]}[n])
+        if n == 'from': return a[0]
+        if n == 'len' and t in env: return env[t]
         if n == 'min': return min(a)
         if n == 'max': return max(a)
     raise Unanalysable('cannot tabulate %s' % show(t))
